@@ -5,6 +5,7 @@ CONSTANTS
   CUTW = 2
   BLOCKT = 2
   PIVRULE = "first"
+  BaseCase <- NaiveBase
   SHAPES <- ShapesQuick
   BIG <- BigQuick
   PATS = 300
